@@ -145,11 +145,40 @@ def periodic_random_fc(orc, S, ph, rng):
     return (fc + fc.transpose(1, 0, 3, 2)) / 2
 
 
+PRESENTATIONS = ["c-array", "strided-dm", "fortran-dm", "transposed-points", "fortran-points", "strided-points"]
+
+
+def present(kind, pts, dms, rng):
+    """Return (commensurate points or None, dynamical matrices) holding the same values in another presentation."""
+    P = np.array(pts, dtype="double")
+    D = np.array(dms, dtype="cdouble")
+    if kind == "list":
+        return None, dms
+    if kind == "c-array":
+        return None, np.array(D, order="C")
+    if kind == "strided-dm":          # every other entry of a longer q-point list
+        big = rng.normal(size=(2 * len(D),) + D.shape[1:]) + 1j * rng.normal(size=(2 * len(D),) + D.shape[1:])
+        big[::2] = D
+        return None, big[::2]
+    if kind == "fortran-dm":
+        return None, np.asfortranarray(D)
+    if kind == "transposed-points":   # e.g. built as (3, N) and transposed
+        return np.array(P.T, order="C").T, D
+    if kind == "fortran-points":
+        return np.asfortranarray(P), D
+    if kind == "strided-points":      # columns of a wider table
+        wide = rng.normal(size=(len(P), 5))
+        wide[:, 1:4] = P
+        return wide[:, 1:4], D
+    raise ValueError(kind)
+
+
 def roundtrip(ctx, events):
     rng = np.random.default_rng(ctx.seed + 11)
     # quick: every other scenario, always including the interleaved-species + centring cases (s2pp_map[j] != j // N)
     cases = ROUNDTRIP if not ctx.quick else [c for i, c in enumerate(ROUNDTRIP) if i % 2 == 0 or i in (1, 3) or c[0] in ("nacl", "naclg")]
     worst = 0.0
+    n_pres = 0
     for entry, S, P in cases:
         orc = Oracle(entry, [S], seed=ctx.seed, ctx=ctx)
         ph = Phonopy(orc.unitcell(), supercell_matrix=S, primitive_matrix=P)
@@ -162,8 +191,8 @@ def roundtrip(ctx, events):
                 fc_in = fc if layout == "full" else np.array(fc[p2s], dtype="double", order="C")
                 ph.force_constants = fc_in.copy()
                 for is_full in (True, False):
-                    d2f = DynmatToForceConstants(ph.primitive, ph.supercell, is_full_fc=is_full)
-                    pts = d2f.commensurate_points
+                    d2f_shared = DynmatToForceConstants(ph.primitive, ph.supercell, is_full_fc=is_full)
+                    pts = d2f_shared.commensurate_points
                     dms = []
                     for q in pts:
                         ph.dynamical_matrix.run(q)
@@ -171,10 +200,21 @@ def roundtrip(ctx, events):
                     Sp = np.rint(np.linalg.inv(ph.primitive.primitive_matrix)).astype(int).tolist()
                     if layout == "full" and is_full and kind == "spring":
                         events.append(point_event(Sp, pts))
-                    for lang in ("C", "Py"):
-                        case = dict(entry=entry, S=S, P=P, fc=kind, input_layout=layout, output_full=is_full, lang=lang)
+                    for lang, pres in [("C", "list"), ("Py", "list"), ("C", PRESENTATIONS[n_pres % len(PRESENTATIONS)]),
+                                       ("Py", PRESENTATIONS[(n_pres + 1) % len(PRESENTATIONS)])]:
+                        n_pres += 1 if pres != "list" else 0
+                        case = dict(entry=entry, S=S, P=P, fc=kind, input_layout=layout, output_full=is_full, lang=lang,
+                                    presentation=pres)
                         try:
-                            d2f.dynamical_matrices = dms
+                            # the same VALUES handed over in another container / memory layout (what a caller who
+                            # computed them with numpy may well hold): the result may depend on the values only
+                            # "list" runs re-use ONE converter (a second run() on the same instance must not see
+                            # anything of the first); the other presentations get a fresh one
+                            d2f = d2f_shared if pres == "list" else DynmatToForceConstants(ph.primitive, ph.supercell, is_full_fc=is_full)
+                            pp, dd = present(pres, pts, dms, rng)
+                            if pp is not None:
+                                d2f.commensurate_points = pp
+                            d2f.dynamical_matrices = dd
                             d2f.run(lang=lang)
                             out = d2f.force_constants
                         except Exception as e:
@@ -184,10 +224,11 @@ def roundtrip(ctx, events):
                         want = fc if is_full else fc[p2s]
                         err = float(np.abs(out - want).max() / scale)
                         worst = max(worst, err)
-                        ctx.count(("rt", entry, str(S), str(P), kind, layout, is_full, lang))
+                        ctx.count(("rt", entry, str(S), str(P), kind, layout, is_full, lang, pres))
                         ctx.traces += 1
                         if err > 1e-9:
-                            ctx.violation("roundtrip:%s:%s" % (lang, "full" if is_full else "compact"),
+                            ctx.violation("roundtrip:%s:%s%s" % (lang, "full" if is_full else "compact",
+                                                                  "" if pres == "list" else ":presentation"),
                                           "fc -> D(q_c) -> fc does not return the force constants (rel. error %.3g)" % err,
                                           dict(case=case, rel_error=err))
         # ph2ph: re-express in another supercell; dynamical matrices at q commensurate with the original S
